@@ -84,6 +84,28 @@ def DnsPortDistinct (p : Plan) : Prop :=
 def FamilyListsNonempty (p : Plan) : Prop :=
   ∀ f, (Listener.at p.tcp f).isSome → ∃ s ∈ p.includes ++ p.excludes, s.fam = f
 
+/-- "Bound listeners": every socket of the plan was granted by the operating system — the bind
+oracle said yes for its (protocol, family, port), and the DNS listener does not sit on an address
+this process' own UDP redirector holds. -/
+def SocketsGranted (bind : Proto → Fam → Nat → Option Errno) (p : Plan) : Prop :=
+  ∀ f a,
+    (Listener.at p.tcp f = some a → bind .tcp f a.port = none) ∧
+    (∀ u, p.udpL = some u → Listener.at u f = some a → bind .udp f a.port = none) ∧
+    (∀ d, p.dnsL = some d → Listener.at d f = some a →
+      bind .udp f a.port = none ∧ ∀ u, p.udpL = some u → Listener.at u f ≠ some a)
+
+/-- The features a hand-over asks of the method, in the property's terms: IPv4 always, IPv6 iff
+active, UDP iff a UDP redirector is planned, DNS iff name servers are handed over, user / group
+iff `--user` / `--group` was given. -/
+def requested (userGiven groupGiven : Bool) (p : Plan) : Gen.C15.FeatKey → Bool
+  | .ipv4 => true
+  | .ipv6 => p.tcp.v6.isSome
+  | .udp => p.udp
+  | .dns => !p.nslist.isEmpty
+  | .user => userGiven
+  | .group => groupGiven
+  | .loopback_proxy_port => false
+
 def Consistent (listenGiven : Bool) (userIncludes : List Subnet) (p : Plan) : Prop :=
   DefaultLoopback listenGiven p ∧ ListenExcluded userIncludes p ∧ Ipv6Exactly p ∧
   ListenersMatch p ∧ DnsPortDistinct p
